@@ -512,7 +512,12 @@ impl ValidGrammar {
         let expr = distribute_descriptions(&mut grammar.arena, expr);
 
         let (mut user_specs, fallback_specs) = grammar.get_specializations(shell)?;
-        let builtin_specs = make_builtin_specializations(shell);
+        // `<PATH> = ...;` / `<DIRECTORY> = ...;` in the grammar override the predefined meaning.
+        let builtin_specs = {
+            let mut builtin_specs = make_builtin_specializations(shell);
+            builtin_specs.retain(|name, _| !nonterminal_definitions.contains_key(name));
+            builtin_specs
+        };
 
         let mut unused_nonterminals: UstrMap<HumanSpan> = nonterminal_definitions
             .iter()
